@@ -166,3 +166,44 @@ Theorem v1_cache_defrag_changes_no_tile :
       cache_ok v1_Inv v1_dlen b c' /\
       (forall k st', In (k, st') c' -> exists st, In (k, st) c /\ v1_dlen st' <= v1_dlen st).
 Proof. exact v1c_defrag_ok. Qed.
+
+(* ---- a store that fails part-way (format v2).  `v2_store_writes f s d` = the writes of _store_tile in program
+   order (size and data appended, index entry, header fields); `apply_writes` performs a list of writes; v2_WInv =
+   v2_Inv without the two header size fields (a failed store leaves them behind). *)
+
+(* the model's store is exactly that list of writes *)
+Theorem v2_store_is_its_writes :
+  forall f s d, v2_WInv f -> slot_ok s -> bytes_okl d -> zlen d < two24 -> blen f + 4 + zlen d < two40 ->
+    v2_store1 f s d = Some (apply_writes f (v2_store_writes f s d)).
+Proof. exact v2_store1_is_writes. Qed.
+
+(* whatever prefix of these writes reached the file (write error, full disk, kill): every index entry is empty or
+   points at a complete record whose recorded size matches, and every address returns its previous tile or - the
+   stored address, from the index write on - the complete new one *)
+Theorem v2_failed_store_leaves_valid_bundle :
+  forall f s d k, v2_WInv f -> slot_ok s -> bytes_okl d -> zlen d < two24 -> blen f + 4 + zlen d < two40 ->
+    let g := apply_writes f (firstn k (v2_store_writes f s d)) in
+    v2_WInv g /\
+    forall s', slot_ok s' ->
+      v2_load g s' = v2_load f s' \/ (s' = s /\ v2_load g s' = (if zlen d =? 0 then RMissing else RData d)).
+Proof. exact v2_store_prefix_ok. Qed.
+
+(* the appended bytes cut short anywhere: no address changes *)
+Theorem v2_torn_append_changes_nothing :
+  forall f t, v2_WInv f -> bytes_okl t ->
+    v2_WInv (bwrite f (blen f) t) /\ forall s, slot_ok s -> v2_load (bwrite f (blen f) t) s = v2_load f s.
+Proof. exact v2_torn_append_ok. Qed.
+
+(* later stores start from such a state and keep it valid *)
+Theorem v2_store_after_failed_store :
+  forall f s d, v2_WInv f -> slot_ok s -> bytes_okl d -> zlen d < two24 -> blen f + 4 + zlen d < two40 ->
+    exists f', v2_store1 f s d = Some f' /\ v2_WInv f' /\
+      forall s', slot_ok s' -> v2_load f' s' = v2_load f s' \/
+                                 (s' = s /\ v2_load f' s' = (if zlen d =? 0 then RMissing else RData d)).
+Proof. exact v2_store_w. Qed.
+
+(* and the order is essential: index entry first is refuted on the fresh bundle *)
+Theorem v2_index_entry_before_record_refuted :
+  exists f s d, v2_Inv f /\ slot_ok s /\ bytes_okl d /\ zlen d < two24 /\ blen f + 4 + zlen d < two40 /\
+    ~ v2_WInv (bwrite f (v2_idx s) (le 8 (v2_entry_encode (blen f + 4) (zlen d)))).
+Proof. exact v2_entry_first_refuted. Qed.
